@@ -37,6 +37,15 @@ fn cfb_uppercase_char(c: char) -> char {
     case_mapper.simple_uppercase(c)
 }
 
+/// Returns the UTF-16 code units of the upper-cased name.
+fn uppercase_utf16_units(name: &str) -> impl Iterator<Item = u16> + '_ {
+    name.chars().map(cfb_uppercase_char).flat_map(|c| {
+        let mut buf = [0u16; 2];
+        let len = c.encode_utf16(&mut buf).len();
+        IntoIterator::into_iter(buf).take(len)
+    })
+}
+
 /// Compares two directory entry names according to CFB ordering, which is
 /// case-insensitive, and which always puts shorter names before longer names,
 /// as encoded in UTF-16 (i.e. [shortlex
@@ -69,8 +78,12 @@ pub fn compare_names(name1: &str, name2: &str) -> Ordering {
             // units, along with a list of weird exceptions and corner cases.  But
             // hopefully this is good enough for 99+% of the time.
             Ordering::Equal => {
-                let n1 = name1.chars().map(cfb_uppercase_char);
-                let n2 = name2.chars().map(cfb_uppercase_char);
+                // MS-CFB section 2.6.4 orders names by their UTF-16 code
+                // units, not by code point; the two differ when a character
+                // outside the BMP (encoded as surrogates 0xD800..=0xDFFF)
+                // meets one in 0xE000..=0xFFFF.
+                let n1 = uppercase_utf16_units(name1);
+                let n2 = uppercase_utf16_units(name2);
                 n1.cmp(n2)
             }
             other => other,
